@@ -387,8 +387,11 @@ where
         });
         
         if wait_cycle_possible {
-            let p = self.resolve(key)?;
-            return Ok(RcRef::new(key, T::from_primitive(p, self)?.into()));
+            let p = self.resolve(key).map_err(|e| PdfError::from(Arc::new(e)))?;
+            return match T::from_primitive(p, self) {
+                Ok(obj) => Ok(RcRef::new(key, obj.into())),
+                Err(e) => Err(Arc::new(e).into())
+            };
         }
 
         // did this call do the load itself (as opposed to finding a cached result)?
@@ -415,24 +418,25 @@ where
         if let Some(val) = in_cycle.into_inner() {
             return Ok(RcRef::new(key, val));
         }
+        // a load that is done again outside the cache (the cached result belongs to another type, or is a failure)
+        // fails the way the cached load fails: with the error wrapped. Readers of optional entries tell the two
+        // forms apart, and what they make of the error must not depend on what happens to be cached
+        let reload = || -> Result<RcRef<T>> {
+            let p = self.resolve(key)?;
+            Ok(RcRef::new(key, T::from_primitive(p, self)?.into()))
+        };
         match res {
             Ok(any) => {
                 match any.downcast() {
                     Ok(val) => Ok(RcRef::new(key, val)),
-                    Err(_) => {
-                        let p = self.resolve(key)?;
-                        Ok(RcRef::new(key, T::from_primitive(p, self)?.into()))
-                    }
+                    Err(_) => reload().map_err(|e| Arc::new(e).into())
                 }
             }
             // a failure of the load that was just done for this very type is final: trying again would double the
             // work at every level of nesting (a chain of n objects that ends in an error took 2^n loads)
             Err(e) if computed_here.get() => Err(e.into()),
-            Err(_) => {
-                // the cached failure may stem from a load of this object as a different type
-                let p = self.resolve(key)?;
-                Ok(RcRef::new(key, T::from_primitive(p, self)?.into()))
-            }
+            // the cached failure may stem from a load of this object as a different type
+            Err(_) => reload().map_err(|e| Arc::new(e).into())
         }
     }
     fn options(&self) -> &ParseOptions {
